@@ -8,7 +8,7 @@ TOL = 1e-12
 
 def api_delta(seq):
     from localcider.sequenceParameters import SequenceParameters
-    return SequenceParameters(seq).get_delta()
+    return core.sp(seq).get_delta()
 
 
 def check_case(case, acc=None):
